@@ -11,6 +11,7 @@ package symgo
 
 import (
 	"go/token"
+	"go/types"
 )
 
 func c12Redirect(ext, harness string) {
@@ -37,11 +38,44 @@ func c12Redirect(ext, harness string) {
 	externals[ext] = self
 }
 
+// c12CanonBasic: byte/rune are aliases of uint8/int32 (identical types) but go/types keeps
+// separate *Basic objects named "byte"/"rune" for them. A reflect.TypeOf model that keys its
+// canonical type objects by type string makes reflect.TypeOf(byte(0)) != reflect.TypeOf(uint8(0)),
+// which gagliardetto/binary checks in an init() (panic "typeOfByte != typeOfUint8"). Wrap
+// whatever model is installed and canonicalise basic alias types first.
+func c12CanonBasic() {
+	prev := externals["reflect.TypeOf"]
+	if prev == nil {
+		return
+	}
+	externals["reflect.TypeOf"] = func(fr *frame, args []value) value {
+		if len(args) == 1 {
+			if x, ok := args[0].(iface); ok && x.t != nil {
+				if b, ok := x.t.(*types.Basic); ok && b.Kind() > types.Invalid && b.Kind() < types.UntypedBool {
+					x.t = types.Typ[b.Kind()]
+					args = []value{x}
+				}
+			}
+		}
+		return prev(fr, args)
+	}
+}
+
 func init() {
+	c12CanonBasic()
+	// verifC12Cid(): a defined (non-Undef) cid.Cid for harness-side CID models; cid.Cid is
+	// struct{ str string } with an unexported field, so a harness outside go-cid can only build
+	// the zero value (= cid.Undef). Natively the harness function returns cid.Undef.
+	verifIntrinsics["verifC12Cid"] = func(fr *frame, args []value) value {
+		return structure{"\x01\x71\x12\x00 (C12 model cid)"}
+	}
 	c12Redirect("github.com/ipfs/go-cid.Cast", "c12Model_cidCast")
 	c12Redirect("github.com/ipfs/go-cid.CidFromBytes", "c12Model_cidFromBytes")
 	c12Redirect("github.com/ipfs/go-cid.CidFromReader", "c12Model_cidFromReader")
 	c12Redirect("github.com/fxamacker/cbor/v2.NewDecoder", "c12Model_cborNewDecoder")
 	c12Redirect("(*github.com/fxamacker/cbor/v2.Decoder).Decode", "c12Model_cborDecode")
 	c12Redirect("github.com/cespare/xxhash/v2.Sum64", "c12Model_xxhashSum64")
+	c12Redirect("(*github.com/rpcpool/yellowstone-faithful/indexes.PubkeyToOffsetAndSize_Reader).Get", "c12Model_pubkeyGet")
+	c12Redirect("github.com/rpcpool/yellowstone-faithful/compactindexsized.EntryHash64", "c12Model_entryHash64")
+	c12Redirect("github.com/rpcpool/yellowstone-faithful/deprecated/compactindex36.EntryHash64", "c12Model_entryHash64")
 }
